@@ -365,6 +365,78 @@ fn has_shadowing(t: &GTree, above: &mut Vec<usize>) -> bool {
     found
 }
 
+/// Some attribute is in a namespace declared as default namespace on its element or above
+/// (inside `t`): the DeduplicateTracker sets a flag.  (`noFlag` of Lemmas/ScopeIdem.lean, negated.)
+fn sets_tracker_flag(vocab: &Vocab, t: &GTree, defaults: &mut Vec<usize>) -> bool {
+    let n0 = defaults.len();
+    let mut found = false;
+    if matches!(t.v, GValue::Element(_)) {
+        // NodeMap::get: the first declaration of the empty prefix
+        if let Some((_, n)) = decls_of(t).iter().find(|(p, _)| *p == 0) {
+            defaults.push(*n);
+        }
+        for k in t.kids.iter().skip_while(|k| matches!(k.v, GValue::Namespace(..))) {
+            match k.v {
+                GValue::Attribute(a, _) => {
+                    if defaults.contains(&vocab.names[a].1) {
+                        found = true;
+                    }
+                }
+                _ => break,
+            }
+        }
+    }
+    if !found {
+        found = t.kids.iter().any(|k| sets_tracker_flag(vocab, k, defaults));
+    }
+    defaults.truncate(n0);
+    found
+}
+
+/// Some element declares a prefix twice, or a prefix declared above is bound to ANOTHER namespace
+/// further down the path (`noRebind` of Lemmas/ScopeIdem.lean, negated).
+fn has_rebinding(t: &GTree, above: &mut Vec<(usize, usize)>) -> bool {
+    let n0 = above.len();
+    let mut found = false;
+    if matches!(t.v, GValue::Element(_)) {
+        let d = decls_of(t);
+        for (i, (p, n)) in d.iter().enumerate() {
+            if d[..i].iter().any(|(q, _)| q == p) || above.iter().any(|(q, m)| q == p && m != n) {
+                found = true;
+            }
+        }
+        above.extend(d);
+    }
+    if !found {
+        found = t.kids.iter().any(|k| has_rebinding(k, above));
+    }
+    above.truncate(n0);
+    found
+}
+
+/// Declarations of every non-namespace node in raw document order (`declsOf` of the Lean side).
+fn decls_per_node(t: &GTree, out: &mut Vec<Vec<(usize, usize)>>) {
+    out.push(decls_of(t));
+    for k in &t.kids {
+        if !matches!(k.v, GValue::Namespace(..)) {
+            decls_per_node(k, out);
+        }
+    }
+}
+
+fn subtree_at<'a>(t: &'a GTree, path: &[usize]) -> Option<&'a GTree> {
+    match path.split_first() {
+        None => Some(t),
+        Some((i, rest)) => t.kids.get(*i).and_then(|k| subtree_at(k, rest)),
+    }
+}
+
+/// Some element declares a prefix twice (not constructible through the namespace map).
+fn has_duplicate_prefix(t: &GTree) -> bool {
+    let d = decls_of(t);
+    d.iter().enumerate().any(|(i, (p, _))| d[..i].iter().any(|(q, _)| q == p)) || t.kids.iter().any(has_duplicate_prefix)
+}
+
 fn has_prefix_bound_to_empty_uri(t: &GTree) -> bool {
     matches!(t.v, GValue::Namespace(p, 0) if p != 0) || t.kids.iter().any(has_prefix_bound_to_empty_uri)
 }
@@ -382,8 +454,11 @@ pub fn check_dedup(sink: &mut Sink, xot: &mut Xot, vocab: &mut Vocab, t: &GTree,
     match before_str {
         Some(Ok(s)) => {
             sink.stat("dedup.serialised-before");
-            if path.is_empty() && !has_shadowing(t, &mut vec![1]) {
-                sink.stat("dedup.serialised-before.root-call-no-shadowing");
+            if !has_shadowing(t, &mut vec![1]) {
+                sink.stat("dedup.serialised-before.no-shadowing");
+                if !path.is_empty() {
+                    sink.stat("dedup.serialised-before.no-shadowing.inner-call");
+                }
             }
             match crate::common::guarded(|| xot.to_string(root)) {
                 Some(Ok(s2)) => {
@@ -426,8 +501,9 @@ pub fn check_dedup(sink: &mut Sink, xot: &mut Xot, vocab: &mut Vocab, t: &GTree,
                     if lost.is_empty() {
                         lost.push("no-name-lost-its-prefix".to_string());
                     }
-                    // C15_serialises_partial (Lean): impossible for a root call on a tree without shadowing
-                    let head = if path.is_empty() && !has_shadowing(t, &mut vec![1]) {
+                    // C15_serialises_partial / _inner (Lean): impossible for a call on any node of a
+                    // tree without shadowing
+                    let head = if !has_shadowing(t, &mut vec![1]) {
                         "C15:serialisation-fails-after-dedup-without-shadowing"
                     } else {
                         "C15:serialisation-fails-after-dedup"
@@ -442,10 +518,45 @@ pub fn check_dedup(sink: &mut Sink, xot: &mut Xot, vocab: &mut Vocab, t: &GTree,
         Some(Err(_)) => sink.stat("dedup.not-serialisable-before"),
         None => sink.stat("dedup.serialise-before-panicked"),
     }
+    // C15_keeps_undeclarations (Lean): node by node, a binding to the no-namespace id stays
+    // (given unique prefixes per element in the call's subtree)
+    if let Some(sub) = subtree_at(t, path) {
+        if !has_duplicate_prefix(sub) {
+            let (mut b, mut a) = (vec![], vec![]);
+            decls_per_node(t, &mut b);
+            decls_per_node(after, &mut a);
+            if b.len() == a.len() {
+                sink.stat("dedup.undeclarations-compared");
+                for (db, da) in b.iter().zip(a.iter()) {
+                    for d in db.iter().filter(|d| d.1 == 0) {
+                        sink.stat(if d.0 == 0 { "dedup.undeclaration-present" } else { "dedup.prefix-bound-to-empty-uri-present" });
+                        if !da.contains(d) {
+                            fail(sink, "C15", "C15:binding-to-no-namespace-removed", &format!("xmlns{}=\"\" was removed", if d.0 == 0 { String::new() } else { format!(":{}", d.0) }), t, path, "dedup");
+                        }
+                    }
+                }
+            }
+        }
+    }
     // a second call removes nothing
+    let idem_guards = match subtree_at(t, path) {
+        Some(sub) => !has_rebinding(sub, &mut vec![]) && !sets_tracker_flag(vocab, sub, &mut vec![]),
+        None => false,
+    };
+    if idem_guards {
+        sink.stat("dedup.idem-guards-hold");
+        if after != t {
+            sink.stat("dedup.idem-guards-hold.first-call-removed-something");
+        }
+    }
     if crate::common::guarded(|| xot.deduplicate_namespaces(node)).is_some() {
         let again = read_tree(xot, vocab, root);
-        if &again != after {
+        if &again != after && idem_guards {
+            // C15_idem_partial (Lean): impossible when no prefix is re-bound to another namespace on a
+            // path and no attribute is in a default namespace of its element or above (both inside the
+            // subtree)
+            fail(sink, "C15", "C15:second-call-removes-more-under-the-idempotence-guards", "a second deduplicate_namespaces call removes further declarations although the subtree re-binds no prefix and sets no tracker flag", t, path, "dedup");
+        } else if &again != after {
             let (_, mut second) = crate::scope_dedup_class::classify(vocab, t, after, Some(&again), path);
             if second.is_empty() {
                 second.push("unclassified".to_string());
